@@ -102,4 +102,18 @@ PROPS = {
                                   "Go's measured TotalAlloc is a measurement, labelled as a test of the allocation bound, not a proof about the Go runtime"],
         assumptions=["global wkbcommon.MaxGeometryElements is set and restored by the harness around each decode (single goroutine)"],
     ),
+    "C20": dict(
+        modules=["GeomVerif.Properties.C20"],
+        n_quick=8000, n_thorough=150000, thorough_seeds=4, min_theorems=4,
+        rule="coordinate sequences of 0..11 points (10%: 0..2, 10%: 50..200) with stride 2..5 (extra ordinates arbitrary bit patterns incl. NaN), on "
+             "integer grids 3/6/20/1000; shapes: random, random walk with repeated points, diagonal collinear runs with outliers, horizontal with "
+             "noise, closed loops (zero-length chord), x thresholds {0, 0.5, 1, 1.5, 2, sqrt2, 3, 4, 10, grid, random}. Go's indexes and the indexes of "
+             "re-simplifying the result are compared with the bit-exact float mirror and judged in exact rational arithmetic. non-trivial = input "
+             "longer than 60 characters",
+        nontrivial=lambda op, inp: len(inp) > 60,
+        trusted_base=TB_COMMON + ["modelled: SimplifyFlatCoords, dpWorker (explicit stack), distanceFromSegmentSquared",
+                                  "Lean Float = IEEE-754 binary64 (bit-exact with Go on amd64); exact distances in Rat with a 1e-9 relative slack for the float decision",
+                                  "threshold and idempotence claims over whole runs are decided by the oracle on explored inputs, not yet by a theorem"],
+        assumptions=["threshold >= 0 and not NaN; X,Y finite"],
+    ),
 }
